@@ -55,8 +55,10 @@ CHAINED = [LTS(2, 1, 0, FILL=67, FILLCHAIN=None), LTS(2, 2, 0, FILL=66, FILLCHAI
 M52_CORE = emask(5, 2, lambda a, q, r: (a, q, r) in ((0, 0, 1), (0, 1, 2), (0, 2, 3), (1, 4, 1), (1, 3, 2), (0, 3, 3), (1, 0, 1), (0, 4, 2), (1, 1, 2)))
 BOTH = [LTS(5, 2, 0, EMASK=M52_CORE, FILL=16, FILLBOTH=None, FILLFIRST=None, OUTSYM=0),      # fillers numbered before the core (the core's counters sit in the later row)
         LTS(5, 2, 0, EMASK=M52_CORE, FILL=22, FILLBOTH=None, FILLFIRST=None, OUTSYM=0), LTS(5, 2, 0, EMASK=M52_CORE, FILL=16, FILLBOTH=None, OUTSYM=0), LTS(5, 2, 0, EMASK=M52_CORE, FILL=33, FILLBOTH=None, FILLFIRST=None, OUTSYM=0)]
+# requested output size 16 / 32 (a full row of the result's bit matrix) with more states than that
+OUTROW = [LTS(3, 1, 0, FILL=18, OUTFIX=16, OUTSYM=0), LTS(3, 2, 0, EMASK=M33_CORE12 if False else M32['noloop'], FILL=33, OUTFIX=32, OUTSYM=0)]
 QUICK = [
-  FILLED[0], FILLED[2], CHAINED[0], CHAINED[1], BOTH[0],
+  FILLED[0], FILLED[2], CHAINED[0], CHAINED[1], BOTH[0], OUTROW[0],
   # no initial partition: greatest simulation preorder
   LTS(2, 1, 0, MULT=1),                       # 8 edge bits (parallel edges) + 2 output-size bits
   LTS(2, 2, 0, MULT=1),                       # 16 + 2
@@ -74,7 +76,7 @@ QUICK = [
   LTS(3, 1, 1, REV=1),                        # 9 + 2 + 3 + 1 + 6: every 3-state single-label system with every partition/preorder
   LTS(3, 2, 1, EMASK=M32['src'], OUTSYM=0),   # 12 + 3 + 6
 ]
-THOROUGH = QUICK + [FILLED[1], FILLED[3], FILLED[4], CHAINED[2], BOTH[1], BOTH[2], BOTH[3]] + [
+THOROUGH = QUICK + [FILLED[1], FILLED[3], FILLED[4], CHAINED[2], BOTH[1], BOTH[2], BOTH[3], OUTROW[1]] + [
   LTS(3, 2, 0, **HEAVY),                                                                 # all 18 edges + 2
   LTS(3, 2, 0, EMASK=M32['loop+b']),
   LTS(2, 2, 1, MULT=1, REV=1),
